@@ -1,5 +1,6 @@
 """C18 — bootstrap cache stays bounded, well-formed and atomically persisted (structural clauses)."""
-import panics  # noqa
+import panics
+from facts import norm  # noqa
 import tables as T
 from cfg import cfg_of
 from flow import Taint, Tracker, callee_matches, field_reads, op_local, prep, backward
@@ -335,6 +336,37 @@ def run(R):
     R.who_may_call("C18.insert.who", [AB + "BootstrapAddresses::insert_addr", CD + "::insert"],
                    [BCS + "::add_addr", CD + "::insert", CD + "::sync", AB + "BootstrapAddresses::sync", AB + "BootstrapAddresses::insert_addr"], floor=2,
                    descr="addresses enter the cache only through add_addr and the merge functions (whose bounds are re-established by perform_cleanup)")
+    # one cache file: write() replaces `self.cache_path`, the merge before it reads `self.config.cache_file_path` — they are the
+    # same path because `new` copies the one into the other and nothing changes either afterwards (a store whose two paths differ
+    # merges with one file and overwrites another: peers of the other writers are lost)
+    BCFG = "ant_bootstrap::config::BootstrapCacheConfig"
+    R.who_may_write("C18.path.store", BCS, "cache_path", [BCS + "::new"], floor=0, descr="BootstrapCacheStore.cache_path is set once, by `new`")
+    nw = R.body("C18.path.one", BCS + "::new")
+    if nw is not None:
+        prep(nw)
+        from props.C04 import agg_field_operands as _afo
+        ops_p = _afo(nw, BCS, "cache_path")
+        ops_c = _afo(nw, BCS, "config")
+        cfgl = Taint(nw).closure(PL(nw, 0))
+        src = Taint(nw, through="all").closure({d for d, r, p in field_reads(nw, "cache_file_path") if r in cfgl or True})
+        okp = bool(ops_p) and bool(ops_c) and all(op_local(o) in src for _, _, o in ops_p) and all(op_local(o) in Taint(nw).closure(PL(nw, 0)) for _, _, o in ops_c)
+        if not okp:
+            R.viol("C18.path.one", "two-paths", "BootstrapCacheStore::new does not take cache_path from the cache_file_path of the config it keeps", nw, nw.lines[0])
+        R.inst("C18.path.one", "K6 flows-to", "new: cache_path = config.cache_file_path, config kept whole", len(ops_p), okp)
+    # the config's path is only changed before a store is built from it
+    nfp = R.body("C18.path.config", BCS + "::new_from_peers_args")
+    if nfp is not None:
+        prep(nfp)
+        g4 = cfg_of(nfp)
+        news = set(CallSink(BCS + "::new").blocks(nfp))
+        wr = {m["bb"] for m in nfp.field_mut if norm(m["adt"]) == BCFG and m["field"] == "cache_file_path"}
+        after = g4.reach(tuple(d for n_ in news for d, _ in g4.succ[n_])) if news else set()
+        okc2 = bool(news) and not (wr & after)
+        if not okc2:
+            R.viol("C18.path.config", "path-changed-after-new", "new_from_peers_args changes the config's cache_file_path after the store was built from it (or builds no store)", nfp, nfp.lines[0])
+        R.inst("C18.path.config", "K5 must-not-follow", "--bootstrap-cache-dir is applied to the config before the store is built", len(wr), okc2)
+    R.who_may_write("C18.path.config.who", BCFG, "cache_file_path", [BCS + "::new_from_peers_args", BCFG + "::with_cache_path", "ant_bootstrap::initial_peers::PeersArgs::get_bootstrap_addr"], floor=2,
+                    descr="the configured cache file path is only set while a configuration is being put together")
     # the cache file is read whole
     lc = R.body("C18.load.whole", BCS + "::load_cache_data")
     if lc is not None:
